@@ -253,6 +253,26 @@ CLAIMS = {
   technique="Lean 4 theorem proving (admission predicates, both sides) + exhaustive length grids / invalid-key constructions "
             "with an independent numeric oracle",
   design="§6 C10"),
+ "C11": dict(
+  text="Machine-checked proof on the model of jose_jwk_gen for every template and every instance of the primitives: the "
+       "call is PREP (what \"alg\" implies; regenerated table) ; MAKE ; key_ops inference ; completeness. An oct key is "
+       "made only for 1..KEYMAX bytes, its k is exactly the next `bytes` bytes of the generator (base64url proved "
+       "injective, so distinct generator outputs give distinct keys) and \"bytes\" is removed; an RSA key only for a "
+       "64-bit size >= 2048 and <= INT_MAX (no narrowing) and an exponent that is absent (65537), a non-negative integer or "
+       "base64url, passing the 3-or-odd-17..256-bit rule, with members = generator(bits, e) and \"bits\" removed; an EC "
+       "key only on the four named curves (default P-256) with (d,x,y) = generator(curve), existing members must equal; "
+       "kty / bytes / crv contradicting alg are refused; key_ops are inferred exactly when alg is given and neither use nor "
+       "key_ops is; the content IV is the generator's next bytes. Grid (3.9k templates; RSA generations capped) on the "
+       "implementation and the model with an independent arithmetic oracle on every accepted key (sizes, n=pq, "
+       "de=1 mod lcm, CRT, d*G=Q, widths), each key used with its algorithm; freshness: pairwise distinctness of k, d, n, p, "
+       "CEK, IV, p2s, epk, GCMKW iv over repeated calls without a tape.",
+  note="Trusted: Lean kernel, standard axioms; RSA/EC generation itself is OpenSSL's (primitive); the executable model's RSA "
+       "generator is a stub and generated RSA/EC members are masked in the comparison; non-repetition of the RNG is "
+       "statistical validation. Found and fixed: F8 (crash on e of wrong type), F18 (bits narrowed through int), F19 "
+       "(negative e became 2^64-1). Known finding (open): templates naming alg dir.",
+  technique="Lean 4 theorem proving (stage-wise characterisation) + regenerated tables + template-grid differential with "
+            "independent arithmetic oracle + distinctness runs",
+  design="§6 C11"),
 }
 
 NOT_YET = "check not built yet (framework under construction); will be claimed when its Lean theorems and correspondence exist"
